@@ -469,6 +469,15 @@ func oracleClient(res *vh.Result, caseNo int, stream, prefix string, p *gPackage
 			res.Fail(vh.Failure{Case: caseNo, Stream: stream, Sig: prefix + " -> declared entity missing from client API", Clause: "entities", Input: input, Got: r.Entities})
 		}
 	}
+	// the schemas of sub-packages (request / response objects and what is declared in place inside them) are filed in
+	// the declared package too: the client API has no package for a sub-package of the declared one (other packages are
+	// the imported ones whose schemas are referenced: j5.list.v1, j5.messaging.v1, ...)
+	for _, cp := range r.ClientPkgs {
+		if strings.HasPrefix(cp, p.Pkg+".") {
+			res.Fail(vh.Failure{Case: caseNo, Stream: stream, Sig: prefix + " -> client API has a package for a sub-package of the declared one (schemas of request / response objects filed outside the declared package)", Clause: "every schema reachable from a method or entity is present", Input: input, Got: r.ClientPkgs, Want: []string{p.Pkg}})
+			break
+		}
+	}
 	have := map[string]bool{}
 	for _, k := range r.Schemas {
 		have[k[0]+"/"+k[1]] = true
